@@ -368,6 +368,10 @@ impl EventGen for OtherElement {
     ) -> Result<(OutputList, Option<BoundingBox>)> {
         let mut output = OutputList::new();
         let mut e = self.0.clone();
+        if e.is_connector() {
+            // (placed by its ends alone; see `Connector::from_element()`)
+            e.remove_attrs(&["x", "y", "xy", "x1", "y1", "xy1", "cx", "cy", "cxy"]);
+        }
         e.resolve_position(context)?; // transmute assumes some of this (e.g. dxy -> dx/dy) has been done
         e.transmute(context)?;
         e.resolve_position(context)?;
